@@ -26,6 +26,8 @@ type DFSConfig struct {
 	// MaxViolations stops after that many violations (default 3).
 	MaxViolations int
 	MaxSteps      int
+	// Watchdog is passed to the scheduler (0 = none).
+	Watchdog time.Duration
 	// Outcome classifies an execution for the outcome histogram.
 	Outcome func(x *vrt.Execution, obs any) string
 	// Shard/Shards split the search on the first branching levels.
@@ -71,7 +73,7 @@ func RunDFS(cfg DFSConfig) *DFSResult {
 // RunOnce replays one recorded choice list.
 func RunOnce(cfg DFSConfig, choices []int, trace bool) (*vrt.Execution, any, string) {
 	var obs any
-	x := vrt.Run(choices, vrt.Options{MaxSteps: cfg.MaxSteps, Trace: trace}, func() { obs = cfg.Body() })
+	x := vrt.Run(choices, vrt.Options{MaxSteps: cfg.MaxSteps, Trace: trace, Watchdog: cfg.Watchdog}, func() { obs = cfg.Body() })
 	msg := ""
 	if x.Failure != "" {
 		msg = x.Failure
@@ -102,7 +104,7 @@ func (d *dfs) explore(prefix []int, used int, level int) {
 		return
 	}
 	var obs any
-	x := vrt.Run(prefix, vrt.Options{MaxSteps: d.cfg.MaxSteps}, func() { obs = d.cfg.Body() })
+	x := vrt.Run(prefix, vrt.Options{MaxSteps: d.cfg.MaxSteps, Watchdog: d.cfg.Watchdog}, func() { obs = d.cfg.Body() })
 	mine := d.cfg.Shards <= 1 || level >= 2 || d.cfg.Shard == 0
 	if mine {
 		d.res.Executions++
